@@ -89,6 +89,13 @@ func (s *scope) callFacts(pr *proof, a Lin, call *ssa.Call, idx int) {
 				}
 			}
 		}
+	case "io.ReadAtLeast":
+		if isResult(idx, 0, nres) {
+			readLike(cm.Args[1])
+			if s.errNilKnown(pr, call) {
+				pr.add(ge(a, s.lin(cm.Args[2], pr))) // err == nil implies n >= min
+			}
+		}
 	case "bytes.Index":
 		// r == -1 or 0 <= r and r + len(sep) <= len(s)
 		pr.add(geC(a, -1))
